@@ -195,6 +195,11 @@ class Jacobian(object):
             for key, meta, dtype in irrelevant_subjacs:
                 self._irrelevant_subjacs[key] = self.create_subjac(key, meta, dtype)
 
+            # the stored values may still be complex from an earlier complex step (the dtype of this
+            # jacobian was switched back while it had no subjacs)
+            for subjac in self._subjacs.values():
+                subjac.set_dtype(self.dtype)
+
             self._initialized = True
 
         return self._subjacs
